@@ -277,10 +277,16 @@ void thread_body(Exec& ex, Db& db, int t, const std::vector<OpSpec>& prog, bool 
       default:
         break;
     }
-    if (q_each) quiesce();
+    // quiescent state after every operation but the last: the thread's exit (below) is its
+    // final quiescent state, reached with whatever requests are still pending
+    if (q_each && opi < static_cast<int>(prog.size())) quiesce();
   }
-  quiesce();
-  // leave QSBR under the scheduler's control (the thread-exit path would run unobserved)
+  // the thread exits: value views are re-read one last time; qsbr_pause() is what the
+  // thread-exit path runs (called here so that it happens under the scheduler's control)
+  for (const auto& w : views)
+    ex.log("{\"e\":\"recheck\",\"t\":" + ts + ",\"k\":" + std::to_string(w.k) + ",\"v0\":" + std::to_string(w.v0) +
+           ",\"v\":" + std::to_string(val_id({w.p, w.n})) + "}");
+  views.clear();
   unodb::this_thread().qsbr_pause();
   ex.on_quiescent(t + 1);
 }
